@@ -329,7 +329,7 @@ def theorem_coverage(cases, limit=600):
     lines = [l for l in p.stdout.split("\n") if l.startswith(("OK", "REJ", "BADREQ"))]
     if len(lines) != len(cases):
         return {"error": "tool answered %d lines for %d texts: %s" % (len(lines), len(cases), (p.stdout + p.stderr)[-300:])}
-    tot = {"X": 0, "T": 0, "U": 0, "-": 0, "M": 0}
+    tot = {"X": 0, "Y": 0, "T": 0, "U": 0, "-": 0, "M": 0}
     kinds = {}
     rejected = 0
     for a in lines:
@@ -344,10 +344,11 @@ def theorem_coverage(cases, limit=600):
             kk[v] += 1
     n = sum(tot.values())
     return {"texts": len(cases), "rejected_by_the_model": rejected, "statements": n,
-            "round_trip_is_a_theorem_at_text_level": tot["X"], "at_token_level_only": tot["T"], "outside_the_fragments": tot["-"] + tot["U"],
+            "round_trip_is_a_theorem_at_text_level": tot["X"], "at_token_level_only": tot["T"] + tot["Y"], "outside_the_fragments": tot["-"] + tot["U"],
             "at_token_level_by_the_third_fragment_only": tot["U"], "outside_every_fragment_including_the_third": tot["-"],
             "in_FragAny_but_outside_the_third_fragment": tot["M"],
+            "at_text_level_by_the_weaker_payload_condition_leafAnyB2_only": tot["Y"], "at_text_level_with_leafAnyB2": tot["X"] + tot["Y"],
             "by_statement_class": kinds,
             "meaning": "X: the parsed tree satisfies FragAny, printableAny, leafAnyB and the pre-pass condition, so C01.statement_round_trip_text_any applies to it; "
-                       "T: FragAny only (C01.statement_round_trip_tokens_any); U: not FragAny but TR3.FragAny (back-quoted aliases, decimal / hex / bit literals: "
+                       "Y: as X with the weaker decidable payload condition leafAnyB2 in place of leafAnyB (C01.statement_round_trip_text_any_B2; counted under at_token_level_only, which keeps its meaning); T: FragAny only (C01.statement_round_trip_tokens_any); U: not FragAny but TR3.FragAny (back-quoted aliases, decimal / hex / bit literals: "
                        "C01.statement_round_trip_tokens_any3, token level); -: decided by correspondence and oracle alone. outside_the_fragments keeps its meaning (outside FragAny = U + -)"}
